@@ -40,6 +40,9 @@ type Cfg struct {
 	// OldEntries (native mode): the tomb sweeper is enabled (retention 1 day) and instance a's history holds live
 	// entries older than the retention, one of them with an empty value (docs/schema.md recommends empty values).
 	OldEntries bool `json:"old_entries"`
+	// LongHistory: instance a committed many transactions before its last upload (its snapshot carries a high LMDB
+	// transaction id; a wiped LMDB starts counting from zero again)
+	LongHistory bool `json:"long_history"`
 }
 
 type Viol struct{ Sig, Msg string }
@@ -67,6 +70,8 @@ type W struct {
 	puts       int
 	lastEvent  string
 	overdue    bool // the forced-snapshot interval elapses before the loop's next deadline check
+	putLife    int  // life in which the application last wrote
+	putHook    string
 }
 
 func (w *W) now() uint64 {
@@ -177,6 +182,11 @@ func Run(cfg Cfg, ctx *explore.Ctx) Result {
 	bi.Destroy()
 	a := inst.New("a", w.b, opt)
 	put(a, "ka", "a1")
+	if cfg.LongHistory {
+		for n := 0; n < 12; n++ {
+			put(a, "kh", fmt.Sprintf("h%d", n))
+		}
+	}
 	if cfg.OldEntries && cfg.Native {
 		old := w.clock - uint64(48*time.Hour)
 		a.AppTxn(func(txn *lmdb.Txn) error {
@@ -424,6 +434,8 @@ func (w *W) runLife(a *inst.Inst, ctx *explore.Ctx, totalSteps *int, put func(a 
 		if w.puts < 2 {
 			out = append(out, sched.Choice{Label: "app:put-ka@" + loop.Point, Cost: 1, Act: &sched.Action{Do: func() {
 				w.puts++
+				w.putLife = w.life
+				w.putHook = loop.Point
 				put(a, "ka", fmt.Sprintf("a%d", w.puts+1))
 				idle = 0
 			}}})
@@ -479,6 +491,23 @@ func (w *W) runLife(a *inst.Inst, ctx *explore.Ctx, totalSteps *int, put func(a 
 			break
 		}
 		if idle >= 2 {
+			// C09 seen from a restarted instance: the loop is idle, so the newest own snapshot holds the last value the
+			// application wrote to ka in this life
+			// (shadow mode: a change made before the start-up capture counts as made while the syncer was down, which
+			// is documented to lose against the instance's own older snapshot)
+			beforeCapture := w.putHook == "start" || w.putHook == "sync.start" || w.putHook == "sync.beforeStartupCapture"
+			if w.puts > 0 && w.putLife == w.life && (cfg.Native || !beforeCapture) {
+				want := fmt.Sprintf("a%d", w.puts+1)
+				if n := w.newest("a"); n != "" {
+					data, _ := w.b.Get(n)
+					if lc, _, err := fleet.SnapLC(data); err == nil {
+						if v, ok := lc["d"]["ka"]; !ok || v.Deleted || v.Val != want {
+							mode := map[bool]string{true: "native", false: "shadow"}[cfg.Native]
+							w.viol("c09:restart:"+mode+":not-published", fmt.Sprintf("life %d: the loop is idle, the application wrote ka=%s in this life, the newest own snapshot %s has %v (present=%v)", w.life, want, n, v, ok))
+						}
+					}
+				}
+			}
 			break
 		}
 	}
